@@ -397,6 +397,16 @@ def one_case(cfg, hist, sa, sb, entries):
         mirror_modes(A, B2)
         outB2 = evaluate(B2, cfg, train_forward=False, toggle=False)        # used as it is: build().eval(); load_state_dict(sd); model(x)
         diff_calls = sorted(set(diff_calls) | {k + '@eval-before-load' for k in outB2 if outA.get(k) != outB2.get(k)})
+        # ... and a fresh model that was already USED in evaluation mode (anything it remembers from its own parameters is stale now)
+        B3 = zoo.build(cfg, sb)
+        if hist.startswith('f64'):
+            B3 = B3.double()
+        B3.eval()
+        mirror_modes(A, B3)
+        evaluate(B3, cfg, train_forward=False, toggle=False)
+        B3.load_state_dict(sd)
+        outB3 = evaluate(B3, cfg, train_forward=False, toggle=False)
+        diff_calls = sorted(set(diff_calls) | {k + '@used-before-load' for k in outB3 if outA.get(k) != outB3.get(k)})
     except Exception as e:
         load_error = load_error or repr(e)[:300]
     b_differed = any(outA.get(k) != outB0.get(k) for k in outB0)
@@ -533,7 +543,19 @@ def behavioural(cfg, hist, sa, sb):
         return diff + ['load_state_dict raised ' + type(e).__name__]
     mirror_modes(A, B2)
     ob2 = evaluate(B2, cfg, train_forward=False, toggle=False)
-    return sorted(set(diff) | {k + '@eval-before-load' for k in ob2 if oa.get(k) != ob2.get(k)})
+    diff = sorted(set(diff) | {k + '@eval-before-load' for k in ob2 if oa.get(k) != ob2.get(k)})
+    B3 = zoo.build(cfg, sb)
+    if hist.startswith('f64'):
+        B3 = B3.double()
+    B3.eval()
+    mirror_modes(A, B3)
+    evaluate(B3, cfg, train_forward=False, toggle=False)
+    try:
+        B3.load_state_dict(sd)
+    except Exception as e:
+        return diff + ['load_state_dict raised ' + type(e).__name__]
+    ob3 = evaluate(B3, cfg, train_forward=False, toggle=False)
+    return sorted(set(diff) | {k + '@used-before-load' for k in ob3 if oa.get(k) != ob3.get(k)})
 
 
 def search(ctx):
